@@ -271,7 +271,7 @@ func c18Check(c *C18Case) (ds []ev.Discrepancy, stats map[string]int) {
 	return ds, stats
 }
 
-var c18Opts = gen.WSOpts{MinFiles: 1, MaxFiles: 3,
+var c18Opts = gen.WSOpts{MinFiles: 1, MaxFiles: 3, Islands: true,
 	Journal: gen.JournalOpts{MinEntries: 1, MaxEntries: 5, Directives: true, TopComments: false, Tx: gen.TxOpts{MaxPostings: 4, MaxScale: 2, MaxDigits: 4}}}
 
 var recC18 = ev.New("C18")
@@ -294,9 +294,24 @@ func TestC18(t *testing.T) {
 		}
 		ws := gen.GenWorkspace(t, p, pools, c18Opts)
 		c := &C18Case{WS: ws, Root: rapid.Bool().Draw(t, "root"), From: rapid.IntRange(0, len(ws.Files)-1).Draw(t, "from")}
+		// the layout where the three sources of declarations differ most: a current file beside the
+		// root journal's tree that has an include tree of its own
+		underRoot := map[int]bool{}
+		for _, fi := range ws.Reachable(0) {
+			underRoot[fi] = true
+		}
+		var beside []int
+		for fi := range ws.Files {
+			if !underRoot[fi] && len(ws.Reachable(fi)) > 1 {
+				beside = append(beside, fi)
+			}
+		}
+		if len(beside) > 0 && rapid.Bool().Draw(t, "frombeside") {
+			c.From = rapid.SampledFrom(beside).Draw(t, "besidefile")
+		}
 		ds, st := c18Check(c)
 		nt := st["expected_warnings"] > 0 && st["declaration_outside_current_file"] > 0
-		cls := []string{fmt.Sprintf("root:%v", c.Root), fmt.Sprintf("files:%d", len(ws.Files))}
+		cls := []string{fmt.Sprintf("root:%v", c.Root), fmt.Sprintf("files:%d", len(ws.Files)), fmt.Sprintf("current-beside-root-with-own-tree:%v", !underRoot[c.From] && len(ws.Reachable(c.From)) > 1)}
 		if st["expected_warnings"] > 0 {
 			cls = append(cls, "has-expected-warnings")
 		}
